@@ -278,6 +278,10 @@ func extraCommand(args []string) bool {
 	switch args[0] {
 	case "rs":
 		rsCases(os.Getenv("VERIF_TIER") == "thorough")
+	case "multi":
+		multiCases(os.Getenv("VERIF_TIER") == "thorough")
+	case "putmod":
+		putmodCases(os.Getenv("VERIF_TIER") == "thorough")
 	default:
 		return false
 	}
